@@ -372,6 +372,13 @@ func (this *BWT) inverseBiPSIv2(src, dst []byte, count int) (uint, uint, error) 
 		return 0, 0, errors.New("Invalid input: corrupted BWT primary index")
 	}
 
+	// The primary indexes of all chunks are used (unchecked) by the decoding tasks
+	for i := 0; i < GetBWTChunks(count); i++ {
+		if p := int(this.PrimaryIndex(i)); p <= 0 || p > count {
+			return 0, 0, errors.New("Invalid input: corrupted BWT primary index")
+		}
+	}
+
 	freqs := [256]int{}
 	internal.ComputeHistogram(src[0:count], freqs[:], true, false)
 	buckets := make([]int, 65536)
